@@ -32,7 +32,9 @@ EXPLANATION = (
     ' '
     'R-C17.9 = R-C07.10; R-C17.10 evolver.project_sig is always the object the saved Version holds (or _save_project_sig stores it into the version).'
     ' '
-    'R-C17.11 _save_project_sig saves the Version on every normal path.')
+    'R-C17.11 _save_project_sig saves the Version on every normal path.'
+    ' '
+    'R-C17.12 EvolveAppTask.execute runs its SQL whenever there is some (guards mention only `sql`).')
 NOT_DECIDED = (
     'That the payload (evolutions, migrations, model names) equals exactly '
     'what was executed between the paired signals for every run.')
@@ -769,7 +771,46 @@ def r11_version_saved_on_every_path(ctx):
                         if x.stmt is not None), key='version-not-saved')
 
 
+def r12_task_sql_runs_whenever_there_is_some(ctx):
+    """EvolveAppTask.execute() announces and runs the SQL it is handed.
+    Whether it does may depend only on that SQL: a hinted task has SQL but
+    no Evolution entries, so `if sql and evolutions:` makes a hinted upgrade
+    execute nothing while the run still saves the evolved signature and
+    sends `evolved`."""
+    ctx.rule('R-C17.12')
+    p = ctx.program
+    f = p.func('evolve.evolve_app_task', 'EvolveAppTask.execute')
+    g = ctx.cfg(f)
+    n = 0
+    for node in g.nodes:
+        for c in node.calls():
+            if call_name(c) != 'run_sql':
+                continue
+            n += 1
+            bad = []
+            for t in g.nodes:
+                if t.kind not in ('test', 'operand') or t.ast is None:
+                    continue
+                if g.guarded_by(node, t, 'T') or g.guarded_by(node, t, 'F'):
+                    names = {x.id for x in ast.walk(t.ast)
+                             if isinstance(x, ast.Name)}
+                    if not names <= {'sql', 'len'}:
+                        bad.append(' '.join(unparse(t.ast).split()))
+            if bad:
+                ctx.finding(f, c, 'whether EvolveAppTask.execute runs its SQL '
+                            'also depends on "%s": tasks with SQL but without '
+                            'that (hinted upgrades carry no Evolution '
+                            'entries) execute nothing, yet the run saves the '
+                            'new signature and reports `evolved`' %
+                            '; '.join(sorted(set(bad))),
+                            key='execute-conditional-on-more-than-sql')
+            else:
+                ctx.ok(f, 'the task SQL runs whenever there is some', c)
+    ctx.floor('run_sql calls in EvolveAppTask.execute', n, 1)
+
+
 def run(ctx):
+    r12_task_sql_runs_whenever_there_is_some(ctx)
     r11_version_saved_on_every_path(ctx)
     r10_saved_signature_is_the_evolved_one(ctx)
     r9_exit_never_suppresses(ctx)
